@@ -11,7 +11,7 @@ ID = "C17"
 LEVEL = "exploration"
 RULE = ("random parent domains as in C16 (inner lists of length 0-4, overlapping, repeated elements, all lists empty in some "
         "cases, scalar attribute in some) x variant {the single row | in_ | contains | not_(in_) | not_(contains)} of an "
-        "outer variable over the 5 element objects in a permuted order; caching on/off. Non-trivial: the concatenation has "
+        "outer variable over the 5 element objects in a permuted order; caching on/off; every query is evaluated twice and a fresh concatenate over the same objects once more (the value must not drift, the user's lists must stay as they were). Non-trivial: the concatenation has "
         ">= 2 elements from >= 2 parents and, for membership variants, the answer is neither empty nor all. distinct by hash.")
 LEVEL_TEXT = ("Reference-model monitoring: the one-row result is compared element by element (identity, order, multiplicity) "
               "with the flat list built in plain Python; membership queries are compared as ordered lists of identities.")
@@ -70,14 +70,21 @@ def check_case(case, ctx):
                 cond = {"in": lambda: in_(d, allv), "contains": lambda: contains(allv, d), "notin": lambda: not_(in_(d, allv)),
                         "notcontains": lambda: not_(contains(allv, d))}[v]()
                 q = an(entity(d, cond))
+        snapshot = [list(p_.items) for p_ in ps]
         try:
             got = list(q.evaluate())
+            got2 = list(q.evaluate())       # the value is the same list on every evaluation
+            with symbolic_mode():           # ... and for a fresh query over the same objects
+                p3 = let(Par, ps)
+                q3 = an(entity(concatenate(p3.one) if case["scalar"] else concatenate(p3.items)))
+            got3 = list(q3.evaluate())
         except Exception as e:
             import traceback
             ctx.fail("EXC", f"{type(e).__name__}: {e}\n{traceback.format_exc()[-700:]}")
             return
     finally:
         enable_caching()
+    mutated = [i for i, p_ in enumerate(ps) if len(p_.items) != len(snapshot[i]) or any(a is not b for a, b in zip(p_.items, snapshot[i]))]
     if v == "one":
         exp = [[lab[id(x)] for x in flat]]
         obs = [[lab.get(id(x), f"?{type(x).__name__}") for x in g] if isinstance(g, (list, tuple)) else f"?{type(g).__name__}" for g in got]
@@ -91,4 +98,17 @@ def check_case(case, ctx):
         ctx.nontrivial()
     if obs != exp:
         ctx.fail("CONCATENATE:" + v, {"expected": exp, "observed": obs})
+    else:
+        def enc(rows):
+            if v == "one":
+                return [[lab.get(id(x), f"?{type(x).__name__}") for x in g] if isinstance(g, (list, tuple)) else f"?{type(g).__name__}" for g in rows]
+            return [lab.get(id(x), f"?{type(x).__name__}") for x in rows]
+        flat_exp = [[lab[id(x)] for x in flat]]
+        if enc(got2) != exp:
+            ctx.fail("CONCATENATE:" + v + ":second_evaluation", {"expected": exp, "observed": enc(got2), "user_lists_modified": mutated})
+        elif [[lab.get(id(x), "?") for x in g] if isinstance(g, (list, tuple)) else "?" for g in got3] != flat_exp:
+            ctx.fail("CONCATENATE:fresh_query_over_same_objects", {"expected": flat_exp, "user_lists_modified": mutated,
+                                                                   "observed": [[lab.get(id(x), "?") for x in g] if isinstance(g, (list, tuple)) else "?" for g in got3]})
+        elif mutated:
+            ctx.count("user_list_modified_but_values_right")     # C04's business, evidence only here
     ctx.sample({"parents": case["world"]["parents"], "variant": v, "outer_order": case["order"], "expected": exp, "observed": obs})
